@@ -16,7 +16,7 @@ inductive PV (R : Type) where
   | sc (v : R)
   | vec (l : List R)
   | mat (l : List (List R))
-  deriving Repr, Inhabited
+  deriving Repr, Inhabited, DecidableEq
 
 variable {R : Type}
 
@@ -146,11 +146,11 @@ def homog (l : List (PV R)) : Bool :=
   | a :: rest => a.shape != .ragged && rest.all (·.shape == a.shape)
 
 inductive Err where
-  | index | value | type
+  | index | value | type | attr
   deriving DecidableEq, Repr
 
 def Err.str : Err → String
-  | .index => "index" | .value => "value" | .type => "type"
+  | .index => "index" | .value => "value" | .type => "type" | .attr => "attr"
 
 /-- numpy integer-array indexing of the first axis -/
 def resolveIdx (n : Nat) (idx : List Int) : Option (List Nat) := idx.mapM (pyIdx n)
